@@ -41,7 +41,7 @@ TARGETS = [
 ]
 ALPH = ["a", "*", "?", "\\", " ", "%", "-", "1"]
 BOUNDS = {
-    "values": f"strings of length <= 2 over {ALPH!r} in 18 detection shapes (single value, lists, |all, |re (+flags), keywords, lists of maps, single-element list, several modifiers, null / number / bool, base64offset, cidr, windash, exists, compare, fieldref, expand, cased)",
+    "values": f"strings of length <= 2 (quick) / <= 3 (thorough) over {ALPH!r} in 18 detection shapes (single value, lists, |all, |re (+flags), keywords, lists of maps, single-element list, several modifiers, null / number / bool, base64offset, cidr, windash, exists, compare, fieldref, expand, cased)",
     "metadata": "16 metadata variants (dates in both spellings, status, level, tags, related, references, author, fields, falsepositives, scope, taxonomy, custom attributes, name)",
     "after transformation": "10 transformations x 12 rule shapes",
     "correlations/filters": "8 types x aliases x group-by x generate x percentile {0, 90} ; extended conditions ; 4 filter shapes",
@@ -106,18 +106,19 @@ def roundtrip_rule(doc, via_yaml: bool) -> bool:
     return q1 == q2
 
 
-def c06a_values(shape: int, n: int, k0: int, k1: int, via_yaml: bool) -> bool:
+def c06a_values(shape: int, n: int, k0: int, k1: int, k2: int, via_yaml: bool) -> bool:
     """
-    pre: 0 <= shape < len(SHAPES)
-    pre: 0 <= n <= 2
-    pre: 0 <= k0 < len(ALPH) and 0 <= k1 < len(ALPH)
+    pre: P("SLO", 0) <= shape < min(len(SHAPES), P("SHI", 99))
+    pre: 0 <= n <= P("LEN", 2)
+    pre: 0 <= k0 < len(ALPH) and 0 <= k1 < len(ALPH) and 0 <= k2 < len(ALPH)
+    pre: n >= 3 or k2 == 0
     pre: n >= 2 or k1 == 0
     pre: n >= 1 or k0 == 0
     post: _
     """
     sh = sel(shape, len(SHAPES))
-    nn = sel(n, 3)
-    ks = [sel(k0, len(ALPH)), sel(k1, len(ALPH))]
+    nn = sel(n, 4)
+    ks = [sel(k0, len(ALPH)), sel(k1, len(ALPH)), sel(k2, len(ALPH))]
     v = "".join(ALPH[ks[i]] for i in range(nn))
     vy = selb(via_yaml)
     with concrete_section():
@@ -324,6 +325,7 @@ def c06a_concrete(shape: int, v: str, via_yaml: bool) -> bool:
 
 OBLIGATIONS = [
     Ob("c06a_values", {}, 900),
+] + [Ob("c06a_values", {"LEN": 3, "SLO": lo, "SHI": lo + 3}, 1800, tier="thorough") for lo in range(0, len(SHAPES), 3)] + [
     Ob("c06a_meta", {}, 600),
     Ob("c06b_transformed", {}, 600),
     Ob("c06c_corr", {}, 600),
